@@ -303,12 +303,35 @@ class MutableAdapter:
             f.insert(op["i"], self.to_value(op["s"])); return []
         if n == "append":
             f.append(self.to_value(op["s"])); return []
-        if n == "extend":
-            f.extend(self.to_value(s) for s in op["ss"]); return []
-        if n == "iadd":
-            f += [self.to_value(s) for s in op["ss"]]
-            if f is not w["f"]:
-                raise Unexpected("+= did not return the file object")
+        if n in ("extend", "iadd"):
+            # what is added comes as a generator, a list, or ANOTHER opened line file of the same variant (over its own source file)
+            # that holds exactly these lines - a line file is a sequence of lines like any other
+            w["adds"] = w.get("adds", 0) + 1
+            kind = (w["adds"] + len(op["ss"])) % 3
+            other = None
+            if kind == 2 and op["ss"] and not (self.mmap and not any(self.to_line(x) for x in op["ss"])):
+                opath = os.path.join(w["dir"], "other%d.txt" % w["adds"])
+                with open(opath, "wb") as fh:
+                    fh.write(file_bytes([self.to_line(x) for x in op["ss"]], 1))
+                other = self.make(opath)
+                other.open()
+                arg = other
+            elif kind == 1:
+                arg = [self.to_value(x) for x in op["ss"]]
+            else:
+                arg = (self.to_value(x) for x in op["ss"])
+            try:
+                if n == "extend":
+                    f.extend(arg)
+                else:
+                    if kind == 0:
+                        arg = list(arg)
+                    f += arg
+                    if f is not w["f"]:
+                        raise Unexpected("+= did not return the file object")
+            finally:
+                if other is not None:
+                    other.close()
             return []
         if n == "remove":
             try:
